@@ -1028,5 +1028,3 @@ func (ex *Exec) vfsEvent(kind, path string) {
 	ex.ghost[fmt.Sprintf("vfs-event:%d", n)] = &StrVal{S: kind + " " + path}
 }
 
-// lockAccess records an access for the C20 lock-discipline check.
-func (ex *Exec) lockAccess(c *Cell, write bool) {}
